@@ -86,6 +86,35 @@ def run_single(name, data, fs, refs):
     return ss, alg
 
 
+_BASE = {}
+
+
+def base_run(name, X, fs, refs, key):
+    """base result plus, for pole tables, the mask of poles that are well enough conditioned to be judged: a pole is
+    judged when a 1e-12 relative perturbation of the data moves its frequency by less than 1e-3 x tolerance"""
+    if key in _BASE:
+        return _BASE[key]
+    fam = ALGS[name]["fam"]
+    _, ab = run_single(name, X.copy(), fs, refs)
+    judged = None
+    if fam in ("ssi", "plscf"):
+        rng = np.random.default_rng(12345)
+        _, ap = run_single(name, X * (1 + 1e-12 * rng.standard_normal(X.shape)), fs, refs)
+        Fb, Xb = np.asarray(ab.result.Fn_poles), np.asarray(ab.result.Xi_poles)
+        Fp, Xp = np.asarray(ap.result.Fn_poles), np.asarray(ap.result.Xi_poles)
+        judged = np.zeros(Fb.shape, dtype=bool)
+        tol = TOL[fam]
+        for c in range(Fb.shape[1]):
+            cand = [r for r in range(Fp.shape[0]) if np.isfinite(Fp[r, c])]
+            for r in range(Fb.shape[0]):
+                if not np.isfinite(Fb[r, c]) or not cand:
+                    continue
+                d = [abs(Fp[q, c] - Fb[r, c]) / Fb[r, c] + abs(Xp[q, c] - Xb[r, c]) for q in cand]
+                judged[r, c] = min(d) < 1e-3 * tol
+    _BASE[key] = (ab, judged)
+    return _BASE[key]
+
+
 def sorted_column(Fn, Xi, Phi, c, k=1.0):
     fin = np.isfinite(Fn[:, c])
     idx = np.where(fin)[0]
@@ -105,7 +134,7 @@ def norm_ok(phi):
     return ok
 
 
-def compare(name, fam, base, trans, k, M, is_perm, col, rep, word):
+def compare(name, fam, base, trans, k, M, is_perm, col, rep, word, judged=None):
     """relations between the result of the base run and of the transformed run"""
     tol = TOL[fam] * (10 if not is_perm else 1)
     rb, rt = base.result, trans.result
@@ -120,29 +149,45 @@ def compare(name, fam, base, trans, k, M, is_perm, col, rep, word):
         Ft, Xt, Pt = np.asarray(rt.Fn_poles), np.asarray(rt.Xi_poles), np.asarray(rt.Phi_poles)
         if Fb.shape != Ft.shape:
             return viol("table_shape", f"pole tables {Ft.shape} vs {Fb.shape}")
+        if judged is None:
+            judged = np.isfinite(Fb)
         for c in range(Fb.shape[1]):
-            ib, it = sorted_column(Fb, Xb, Pb, c), sorted_column(Ft, Xt, Pt, c, k)
-            if len(ib) != len(it):
-                return viol("nan_pattern", f"order column {c}: {len(it)} retained poles, base run {len(ib)}")
-            if not ib:
-                continue
-            fb, ft = Fb[ib, c], Ft[it, c]
-            if not np.allclose(ft, k * fb, rtol=tol, atol=0):
-                return viol("frequency", f"order column {c}: frequencies {ft[:3]} expected {k} x {fb[:3]}")
-            if not np.allclose(Xt[it, c], Xb[ib, c], rtol=0, atol=max(tol, 1e-9) * 10):
-                return viol("damping", f"order column {c}: damping {Xt[it, c][:3]} vs base {Xb[ib, c][:3]}")
-            for a, b in zip(ib, it):
-                pb = M @ Pb[a, c, :]
+            rows_b = [r for r in range(Fb.shape[0]) if np.isfinite(Fb[r, c])]
+            cand = [r for r in range(Ft.shape[0]) if np.isfinite(Ft[r, c])]
+            n_dc = sum(1 for r in rows_b if not judged[r, c])
+            if abs(len(cand) - len(rows_b)) > n_dc:
+                return viol("nan_pattern", f"order column {c}: {len(cand)} retained poles, base run {len(rows_b)} ({n_dc} ill-conditioned)")
+            col.bump("poles_not_judged_ill_conditioned", n_dc)
+            for r in rows_b:
+                if not judged[r, c]:
+                    continue
+                pb = M @ Pb[r, c, :]
                 pb = pb / pb[np.argmax(np.abs(pb))]
-                pt = Pt[b, c, :]
-                if not np.allclose(pt, pb, rtol=0, atol=max(tol, 1e-9) * 100):
-                    # conjugate twins share frequency and damping: allow the twin
-                    if not np.allclose(pt, pb.conj() / (pb.conj())[np.argmax(np.abs(pb))], rtol=0, atol=max(tol, 1e-9) * 100):
-                        return viol("mode_shape", f"order column {c}: shape {np.round(pt, 6)} expected {np.round(pb, 6)} (channel map applied, renormalised)")
-                if not norm_ok(pt):
+                pbc = pb.conj() / pb.conj()[np.argmax(np.abs(pb))]
+                hit = None
+                why = "frequency"
+                for q in cand:
+                    if abs(Ft[q, c] - k * Fb[r, c]) > tol * k * Fb[r, c]:
+                        continue
+                    why = "damping"
+                    if abs(Xt[q, c] - Xb[r, c]) > max(tol, 1e-9) * 10:
+                        continue
+                    why = "mode_shape"
+                    pt = Pt[q, c, :]
+                    if np.allclose(pt, pb, rtol=0, atol=max(tol, 1e-9) * 100) or np.allclose(pt, pbc, rtol=0, atol=max(tol, 1e-9) * 100):
+                        hit = q
+                        break
+                if hit is None:
+                    return viol(why, f"order column {c}: no pole of the transformed run matches base pole f = {Fb[r, c]:.8g} x {k}, "
+                                     f"xi = {Xb[r, c]:.6g} (transformed column: {np.round(Ft[cand, c], 8)[:6]})")
+                if not norm_ok(Pt[hit, c, :]):
                     return viol("normalisation", f"order column {c}: largest component of a reported shape is not 1")
-        if not np.array_equal(np.asarray(rb.Lab).sum(axis=0), np.asarray(rt.Lab).sum(axis=0)):
-            return viol("labels", "number of stable poles per order differs")
+                cand.remove(hit)
+        lb, lt = np.asarray(rb.Lab).sum(axis=0), np.asarray(rt.Lab).sum(axis=0)
+        ndc = np.array([sum(1 for r in range(Fb.shape[0]) if np.isfinite(Fb[r, c]) and not judged[r, c]) for c in range(Fb.shape[1])])
+        ndc = ndc + np.concatenate([[0], ndc[:-1]])       # a label also depends on the previous order
+        if (np.abs(lb - lt) > ndc).any():
+            return viol("labels", f"number of stable poles per order differs: {lt} vs base {lb}")
     # extracted modes
     if fam == "fdd" or fam == "efdd":
         s1 = np.asarray(rb.S_val)[0, 0, :]
@@ -157,16 +202,20 @@ def compare(name, fam, base, trans, k, M, is_perm, col, rep, word):
         else:
             base.mpe(sel_freq=[f0], DF1=2 * df, DF2=14 * df, sppk=1, npmax=6)
             trans.mpe(sel_freq=[k * f0], DF1=2 * df * k, DF2=14 * df * k, sppk=1, npmax=6)
-    elif fam == "ssi":
-        cc = Fb.shape[1] - 1
-        f0 = float(np.nanmin(Fb[:, cc]))
-        base.mpe(sel_freq=[f0], order=cc, rtol=1e-3)
-        trans.mpe(sel_freq=[k * f0], order=cc, rtol=1e-3)
     else:
-        cc = Fb.shape[1] - 1
-        f0 = float(np.nanmin(Fb[:, cc]))
-        base.mpe(sel_freq=[f0], order=cc, rtol=1e-3)
-        trans.mpe(sel_freq=[k * f0], order=cc, rtol=1e-3)
+        # extract a well-conditioned pole of the highest order that has one
+        pick = None
+        for cc in range(Fb.shape[1] - 1, -1, -1):
+            rows = [r for r in range(Fb.shape[0]) if np.isfinite(Fb[r, cc]) and judged[r, cc]]
+            if rows:
+                pick = (cc, float(min(Fb[r, cc] for r in rows)))
+                break
+        if pick is None:
+            col.bump("extraction_not_judged_no_well_conditioned_pole")
+            return True
+        cc, f0 = pick
+        base.mpe(sel_freq=[f0], order=cc, rtol=1e-4)
+        trans.mpe(sel_freq=[k * f0], order=cc, rtol=1e-4)
     rb, rt = base.result, trans.result
     if len(np.atleast_1d(rb.Fn)) != len(np.atleast_1d(rt.Fn)):
         return viol("extracted_count", f"extracted {rt.Fn} vs base {rb.Fn}")
@@ -236,9 +285,9 @@ def check_case(col, t, seed, algs, kind):
             continue
         col.count()
         try:
-            _, ab = run_single(name, X.copy(), FS, base_refs)
+            ab, judged = base_run(name, X, FS, base_refs, (name, seed, kind, tuple(base_refs)))
             _, at = run_single(name, Y.copy(), fs, new_refs)
-            compare(name, fam, ab, at, k, M, is_perm, col, dict(rep, alg=name), word)
+            compare(name, fam, ab, at, k, M, is_perm, col, dict(rep, alg=name), word, judged)
         except core.MachineryFailure:
             raise
         except Exception as e:
